@@ -199,9 +199,11 @@ def solve_main(objfun, x0, argsf, xl, xu, projections, npt, rhobeg, rhoend, maxf
                 exit_info = ExitInformation(EXIT_SUCCESS, "Objective is sufficiently small")
 
         if exit_info is not None:
-            xmin_eval_num = 0
-            jacmin_eval_nums = np.array([0], dtype=int)
-            return x0, r0_avg, sumsq(r0_avg), None, num_samples_run, nf, nx, nruns_so_far+1, exit_info, diagnostic_info, xmin_eval_num, jacmin_eval_nums
+            obj0_avg = sumsq(r0_avg)
+            if h is not None:
+                obj0_avg += h(remove_scaling(x0, scaling_changes), *argsh)
+            # x0 is evaluation point number nx; no Jacobian (so no Jacobian evaluation numbers) available yet
+            return x0, r0_avg, obj0_avg, None, num_samples_run, nf, nx, nruns_so_far+1, exit_info, diagnostic_info, nx, None
 
     else:  # have old r0 information (e.g. from previous restart), use this instead
 
